@@ -26,6 +26,10 @@ var c11StructTypes = []string{
 	"fn:List(fn:Struct(/f, /number, fn:opt(/g, /string)))",
 	"fn:List(fn:Struct(/f, /number, fn:opt(/g, /number)))",
 	"/any",
+	// tagged unions with an empty variant in first / last place
+	"fn:TaggedUnion(/kind, /quit, fn:Struct(), /move, fn:Struct(/f, /number))",
+	"fn:TaggedUnion(/kind, /move, fn:Struct(/f, /number), /quit, fn:Struct())",
+	"fn:TaggedUnion(/kind, /quit, fn:Struct(), /stop, fn:Struct(), /move, fn:Struct(/f, /number))",
 }
 
 func c11StructFamily(r *rt.Run) {
@@ -39,6 +43,8 @@ func c11StructFamily(r *rt.Run) {
 		return *ast.Struct(m)
 	}
 	structs := []ast.Constant{mk(&f, &one), mk(&f, &s), mk(&f, &one, &g, &s), mk(&f, &one, &g, &two), mk(&f, &one, &h, &two), mk(&f, &one, &g, &s, &h, &two), ast.StructNil}
+	kind, quit, move, stop := name2("/kind"), name2("/quit"), name2("/move"), name2("/stop")
+	structs = append(structs, mk(&kind, &quit), mk(&kind, &stop), mk(&kind, &move, &f, &one))
 	var vals []ast.Constant
 	vals = append(vals, structs...)
 	for _, x := range structs[:4] {
